@@ -89,7 +89,8 @@ func normalFormViolations(lang string, schemas ast.Schemas) []nfViolation {
 				if structRules && !f.Required && !f.Type.Nullable {
 					out = append(out, nfViolation{"optional-field-not-nullable", where + ">field:" + string(f.Type.Kind), obj.SelfRef.String()})
 				}
-				walk(obj, f.Type, append(ctx, "field"), false, false)
+				// an inline struct below a member of an allOf branch is still "inside the composition"
+				walk(obj, f.Type, append(ctx, "field"), false, inIntersection && f.Type.Kind == ast.KindStruct)
 			}
 		case ast.KindArray:
 			if t.Array != nil {
@@ -167,6 +168,35 @@ func checkC06(r *Run) {
 			o.NestedUnions, o.AliasObjects, o.Intersections, o.UniqueNames = false, false, false, true
 			cd.mod(&o)
 			schemas, tags := genSchemas(rng, o)
+			if len(schemas) > 0 {
+				// an anonymous struct that is a union branch of a member of another anonymous struct
+				s0 := schemas[0]
+				s0.AddObject(ast.NewObject(s0.Package, "AimNested", ast.NewStruct(
+					ast.NewStructField("options", ast.NewStruct(
+						ast.NewStructField("legend", ast.NewDisjunction([]ast.Type{ast.String(), ast.NewStruct(ast.NewStructField("placement", ast.String(), ast.Required()))}), ast.Required()),
+						ast.NewStructField("list", ast.NewArray(ast.NewDisjunction([]ast.Type{
+							ast.Bool(),
+							ast.NewStruct(ast.NewStructField("deep", ast.NewStruct(ast.NewStructField("x", ast.String())))),
+						}))),
+					), ast.Required()),
+				)))
+			}
+			if o.Intersections && len(schemas) > 0 {
+				// an allOf whose inline branch holds inline structs with optional members (inline structs survive only there)
+				s0 := schemas[0]
+				s0.AddObject(ast.NewObject(s0.Package, "AimBase", ast.NewStruct(ast.NewStructField("id", ast.String(), ast.Required()))))
+				s0.AddObject(ast.NewObject(s0.Package, "AimPanel", ast.NewIntersection([]ast.Type{
+					ast.NewRef(s0.Package, "AimBase"),
+					ast.NewStruct(
+						ast.NewStructField("settings", ast.NewStruct(
+							ast.NewStructField("opt", ast.String()),
+							ast.NewStructField("req", ast.String(), ast.Required()),
+						), ast.Required()),
+						ast.NewStructField("maybe", ast.NewStruct(ast.NewStructField("x", ast.Bool()))),
+						ast.NewStructField("plainOpt", ast.NewScalar(ast.KindInt64)),
+					),
+				})))
+			}
 			input := mustJSON(schemas)
 			for _, lang := range c06Langs {
 				var result ast.Schemas
